@@ -1,4 +1,5 @@
 import SdbModel.Model.Reconciler
+import SdbModel.Generated.RecParams
 import SdbModel.Props.C16
 import SdbModel.Lemmas.ReconcilerMeasure
 
@@ -495,5 +496,9 @@ example :
     let r : R := ({} : R).userPut 1 7
     r.get 1 = some { id := 1, data := 7, kind := .pending, sid := 1, other := 0, rev := 1 } ∧ r.tableRev = 1 ∧
     ¬ (r.pending.isNone ∧ r.refreshedAt = r.tableRev) := by decide
+
+/-- the structural facts about reconciler/incremental.go and reconciler/retries.go that the model
+    builds in — the order of a round's phases (changes, status commit, due retries, status commit), the batch order and the processing conditions that `R.round` / `R.roundB` build in — hold of the source as it is today (regenerated by `tools/extract` on every run) -/
+theorem C14_source_facts : Gen.recFacts = Rec.expectedFacts := by decide
 
 end Sdb
